@@ -210,15 +210,25 @@ pub struct CountingSrc {
     data: Rc<Vec<u8>>,
     i: usize,
     pulled: Rc<Cell<usize>>,
+    /// number of bytes currently available: a resumable (streaming) source answers None when it
+    /// has handed out all of them and yields again once more have arrived
+    limit: Rc<Cell<usize>>,
 }
 impl CountingSrc {
     pub fn new(data: Rc<Vec<u8>>, pulled: Rc<Cell<usize>>) -> Self {
-        CountingSrc { data, i: 0, pulled }
+        let limit = Rc::new(Cell::new(usize::MAX));
+        CountingSrc { data, i: 0, pulled, limit }
+    }
+    pub fn streaming(data: Rc<Vec<u8>>, pulled: Rc<Cell<usize>>, limit: Rc<Cell<usize>>) -> Self {
+        CountingSrc { data, i: 0, pulled, limit }
     }
 }
 impl Iterator for CountingSrc {
     type Item = u8;
     fn next(&mut self) -> Option<u8> {
+        if self.i >= self.limit.get() {
+            return None;
+        }
         let r = self.data.get(self.i).copied();
         if r.is_some() {
             self.i += 1;
@@ -247,6 +257,8 @@ impl MatchRec {
 
 pub struct StepIter<'a, V> {
     it: Box<dyn Iterator<Item = Match<V>> + 'a>,
+    /// bytes available to a streaming source (entry "stream")
+    pub limit: Option<Rc<Cell<usize>>>,
     pulled: Option<Rc<Cell<usize>>>,
     probes: u64,
     hops: u64,
@@ -285,9 +297,11 @@ impl<V: Val> Pma<V> {
     /// counting source). `hay` must be valid UTF-8 for the char-wise variant.
     pub fn iter<'a>(&'a self, method: &str, entry: &str, hay: &'a Rc<Vec<u8>>) -> StepIter<'a, V> {
         let pulled = Rc::new(Cell::new(0usize));
-        let from_iter = entry == "iter";
+        let stream = entry == "stream";
+        let limit = Rc::new(Cell::new(if stream { 0 } else { usize::MAX }));
+        let from_iter = entry == "iter" || stream;
         if entry == "owned" {
-            return StepIter { it: self.iter_owned(method, hay), pulled: None, probes: 0, hops: 0 };
+            return StepIter { it: self.iter_owned(method, hay), limit: None, pulled: None, probes: 0, hops: 0 };
         }
         let it: Box<dyn Iterator<Item = Match<V>> + 'a> = match self {
             Pma::B(p) => {
@@ -295,15 +309,15 @@ impl<V: Val> Pma<V> {
                 match (method, from_iter) {
                     ("ov", false) => Box::new(p.find_overlapping_iter(h)),
                     ("ov", true) => Box::new(
-                        p.find_overlapping_iter_from_iter(CountingSrc::new(hay.clone(), pulled.clone())),
+                        p.find_overlapping_iter_from_iter(CountingSrc::streaming(hay.clone(), pulled.clone(), limit.clone())),
                     ),
                     ("find", false) => Box::new(p.find_iter(h)),
                     ("find", true) => {
-                        Box::new(p.find_iter_from_iter(CountingSrc::new(hay.clone(), pulled.clone())))
+                        Box::new(p.find_iter_from_iter(CountingSrc::streaming(hay.clone(), pulled.clone(), limit.clone())))
                     }
                     ("nosuf", false) => Box::new(p.find_overlapping_no_suffix_iter(h)),
                     ("nosuf", true) => Box::new(p.find_overlapping_no_suffix_iter_from_iter(
-                        CountingSrc::new(hay.clone(), pulled.clone()),
+                        CountingSrc::streaming(hay.clone(), pulled.clone(), limit.clone()),
                     )),
                     ("lm", _) => Box::new(p.leftmost_find_iter(h)),
                     _ => panic!("bad method {method}"),
@@ -314,18 +328,15 @@ impl<V: Val> Pma<V> {
                 match (method, from_iter) {
                     ("ov", false) => Box::new(p.find_overlapping_iter(h)),
                     ("ov", true) => Box::new(unsafe {
-                        p.find_overlapping_iter_from_iter(CountingSrc::new(hay.clone(), pulled.clone()))
+                        p.find_overlapping_iter_from_iter(CountingSrc::streaming(hay.clone(), pulled.clone(), limit.clone()))
                     }),
                     ("find", false) => Box::new(p.find_iter(h)),
                     ("find", true) => Box::new(unsafe {
-                        p.find_iter_from_iter(CountingSrc::new(hay.clone(), pulled.clone()))
+                        p.find_iter_from_iter(CountingSrc::streaming(hay.clone(), pulled.clone(), limit.clone()))
                     }),
                     ("nosuf", false) => Box::new(p.find_overlapping_no_suffix_iter(h)),
                     ("nosuf", true) => Box::new(unsafe {
-                        p.find_overlapping_no_suffix_iter_from_iter(CountingSrc::new(
-                            hay.clone(),
-                            pulled.clone(),
-                        ))
+                        p.find_overlapping_no_suffix_iter_from_iter(CountingSrc::streaming(hay.clone(), pulled.clone(), limit.clone()))
                     }),
                     ("lm", _) => Box::new(p.leftmost_find_iter(h)),
                     _ => panic!("bad method {method}"),
@@ -334,6 +345,7 @@ impl<V: Val> Pma<V> {
         };
         StepIter {
             it,
+            limit: if stream { Some(limit) } else { None },
             pulled: if from_iter { Some(pulled) } else { None },
             probes: 0,
             hops: 0,
@@ -443,6 +455,14 @@ impl<V: Val> Pma<V> {
             (Pma::B(a), Pma::B(b)) => V::eq_b(a, b),
             (Pma::C(a), Pma::C(b)) => V::eq_c(a, b),
             _ => false,
+        }
+    }
+    /// `self.clone_from(source)`: overwrite an existing automaton in place
+    pub fn clone_from_pma(&mut self, source: &Pma<V>) {
+        match (self, source) {
+            (Pma::B(a), Pma::B(b)) => a.clone_from(b),
+            (Pma::C(a), Pma::C(b)) => a.clone_from(b),
+            _ => panic!("harness: variant mismatch"),
         }
     }
     pub fn clone_pma(&self) -> Pma<V> {
